@@ -141,8 +141,24 @@ def check(pid, tier, seed, only_report=None):
             for t in u.trusted:
                 trusted.add("verus %s: %s" % (un, t[:200]))
             failed_ids = {}
+            # A function's postconditions are proved FROM its loop invariants, proof hints and body-safety obligations (the invariant is
+            # assumed at loop exit): when one of those fails, every clause of that function has lost its proof.  Such a failure therefore
+            # counts for every property that some clause of the same function serves, not only for the tags on the failed line
+            # (seed X12/1: `radial.inv`, tagged C02, failed; `radial.edges`, tagged C02 and C12, still "verified" on top of it).
+            fn_union = {}
+            for c in u.clauses:
+                fn_union.setdefault(c.fn, set()).update(c.props)
+            for x in u.functions:
+                if x["kind"] == "fn":
+                    fn_union.setdefault(x["name"], set()).update(x.get("props", []))
+            clause_kind = {"V:%s:%s:%s" % (un, c.fn, c.id or c.kind): c.kind for c in u.clauses}
             for f in r.failures:
-                failed_ids.setdefault(f["obligation"], f)
+                ob = f["obligation"]
+                supporting = f["kind"] in ("body", "hint", "call-pre") or clause_kind.get(ob, "") in ("invariant", "invariant_except_break", "decreases")
+                if supporting and "SHAPE" not in f["props"]:
+                    fn_ = ob.split(":")[2]
+                    f["props"] = sorted(set(f["props"]) | (fn_union.get(fn_, set()) - {"SHAPE"}))
+                failed_ids.setdefault(ob, f)
             mine = [c for c in u.clauses if serves(c.props) and c.kind != "requires"]
             fn_with = sorted(set(c.fn for c in mine))
             for f in u.functions:
